@@ -368,6 +368,34 @@ pub fn policy_sets(tier: Tier, schema: &cedar_policy::Schema) -> Vec<(Vec<Pol>, 
             valid.push(p);
         }
     }
+    // `has` whose operand is an attribute of a request entity: the operand errors when that entity
+    // does not exist, the `has` itself never does (after seed C15-b1)
+    {
+        let hs: Vec<E> = vec![
+            E::has(E::attr(rs.clone(), "meta"), "rev"),
+            E::has(E::attr(rs.clone(), "owner"), "nick"),
+            E::Has(b(rs.clone()), vec!["meta".into(), "rev".into()]),
+        ];
+        let mut j = 0usize;
+        for h in hs {
+            for o in 0..4usize {
+                j += 1;
+                let t = if j % 2 == 0 { E::Bool(true) } else { E::Is(b(pr.clone()), "User".into()) };
+                let f = E::not(t.clone());
+                let e = match o {
+                    0 => E::or(h.clone(), t),
+                    1 => E::not(E::and(h.clone(), f)),
+                    2 => E::or(E::not(h.clone()), t),
+                    _ => E::ite(E::and(h.clone(), f), E::Bool(false), E::Bool(true)),
+                };
+                for eff in [Effect::Permit, Effect::Forbid] {
+                    let mut p = Pol::simple(&format!("h{}", valid.len()), eff, Some(e.clone()));
+                    p.action = AS::Eq(view());
+                    valid.push(p);
+                }
+            }
+        }
+    }
     let mut k = 0usize;
     for l in &leaves {
         for c in &containers {
